@@ -514,3 +514,72 @@ def updAtomic : List String := [{', '.join(lean_str(a) for a in atomic)}]
 end StarsimModel.Gen
 '''
     return body, dict(branches=branches, dispatch=dispatch, atomic=atomic)
+
+
+# ---------------------------------------------------------------------------
+# round 6: what `ss.standardize_data` does to the VALUES of the index columns (reference times, age starts, sex labels) of a data table
+
+UTILS = 'starsim/utils.py'
+
+
+def _index_target(t):
+    """ `index['k']` / `index[k]` / `index.k` -> key text, else None """
+    if isinstance(t, ast.Subscript) and unparse(t.value) == 'index':
+        return t.slice.value if isinstance(t.slice, ast.Constant) and isinstance(t.slice.value, str) else '*'
+    if isinstance(t, ast.Attribute) and unparse(t.value) == 'index':
+        return t.attr
+    return None
+
+
+@generator('TableIndex', [UTILS])
+def gen_table_index(src):
+    fn = src.func(UTILS, 'standardize_data', None)
+    ops = []
+
+    def visit(stmts, guard):
+        for s in stmts:
+            if isinstance(s, (ast.If, ast.For, ast.While, ast.With, ast.Try)):
+                g = guard
+                if isinstance(s, ast.If): g = guard + [unparse(s.test)]
+                for blk in ('body', 'orelse', 'finalbody'):
+                    visit(getattr(s, blk, []) or [], g)
+                for h in getattr(s, 'handlers', []) or []: visit(h.body, g)
+                continue
+            targets = []
+            if isinstance(s, ast.Assign): targets = s.targets
+            elif isinstance(s, (ast.AugAssign, ast.AnnAssign)): targets = [s.target]
+            keys = [k for k in (_index_target(t) for t in targets) if k is not None]
+            if any(unparse(t) == 'index' for t in targets):
+                if isinstance(s, ast.Assign) and unparse(s.value) in ('sc.objdict()', 'dict()', '{}'): continue   # the empty container
+                ops.append(('*', 'rewrite')); continue
+            for k in keys:
+                v = s.value
+                txt = unparse(v)
+                if isinstance(s, ast.Assign) and isinstance(v, ast.Subscript) and unparse(v.value) == 'data': op = 'copy'          # index[k] = data[col]
+                elif isinstance(s, ast.Assign) and isinstance(v, ast.Call) and unparse(v.func) == 'np.full' and any(f"'{k}' not in index" == g for g in guard): op = 'default'
+                elif k == 'sex' and isinstance(s, ast.Assign) and isinstance(v, ast.ListComp) and "metadata['sex_keys']" in txt: op = 'map-labels'
+                else: op = 'rewrite'
+                ops.append((k, op))
+            if isinstance(s, ast.Expr) and isinstance(s.value, ast.Call) and isinstance(s.value.func, ast.Attribute) and unparse(s.value.func.value) == 'index':
+                c = s.value; m = c.func.attr
+                if m == 'insert' and len(c.args) == 3 and isinstance(c.args[1], ast.Constant) and unparse(c.args[2]) == f"index.pop('{c.args[1].value}')":
+                    ops.append((c.args[1].value, 'move'))
+                else:
+                    raise ExtractError(f'standardize_data: `{unparse(s)}` on the index columns is outside the supported vocabulary')
+
+    visit(fn.body, [])
+    if not any(op == 'copy' for _, op in ops):
+        raise ExtractError('standardize_data: the statement copying the index columns from the data (`index[k] = data[col]`) was not found')
+    # the series must be built from the index columns as they stand
+    built = [n for n in ast.walk(fn) if isinstance(n, ast.Call) and unparse(n.func) == 'pd.MultiIndex.from_arrays']
+    if len(built) != 1 or unparse(built[0].args[0]) != 'index.values()':
+        raise ExtractError('standardize_data: `pd.MultiIndex.from_arrays(index.values(), ...)` was not found')
+    rows = ', '.join(f'({lean_str(a)}, {lean_str(b)})' for a, b in ops)
+    body = f'''namespace StarsimModel.Gen
+/-- `ss.standardize_data`: every statement that writes an index column of the table (column key or "*" = all, operation), in source order.
+    copy = taken from the data as written; default = filled in only when the column is absent; move = re-ordered; map-labels = sex labels
+    mapped through the metadata; rewrite = anything else (the stored values are no longer the written ones) -/
+def stdIndexOps : List (String × String) := [{rows}]
+end StarsimModel.Gen
+'''
+    return body, dict(ops=ops)
